@@ -1,0 +1,14 @@
+//go:build verif
+
+package flows
+
+import (
+	"github.com/agglayer/aggkit/aggsender/types"
+)
+
+// VerifLimitCertSize exposes baseFlow.limitCertSize to the verification harness.
+func VerifLimitCertSize(maxCertSize uint, log types.Logger,
+	p *types.CertificateBuildParams) (*types.CertificateBuildParams, error) {
+	f := &baseFlow{cfg: BaseFlowConfig{MaxCertSize: maxCertSize}, log: log}
+	return f.limitCertSize(p)
+}
